@@ -50,7 +50,7 @@ CHECKS = {
             "Networks of 2-4 reactions under five index patterns (distinct, shared, unindexed -> re-indexed, mixed, zero-based), every subset of (present indices + one absent index) as rate-modifier keys, four ODE-modifier shapes: the rendering with modifiers may differ from the rendering without exactly at the targeted rate statements and by exactly factor x product of abundances on the named species; a slice of cases goes through Network.export -> render and init -> render in fresh processes and must give identical rate text, RHS and Jacobian polynomials.",
             "Effective index of an unindexed network = position (as TemplateLoader.render re-indexes). Values with ',' are outside what init's option grammar can express.", "DESIGN.md §2 C13"),
     "C14": ("model_checking", "explicit-state breadth-first search over operation histories on real Network objects, states de-duplicated by a canonical key, reference model compared on every transition",
-            "BFS over all histories of a 24-operation menu (add x7, add from file, remove by index/list/instance/instances, three allowed lists, two required lists, de-duplicate, append depletion/desorption, reindex) to depth 3 (quick) / 5 (thorough) and of a reduced 10-operation menu to depth 7; every transition calls the real method on a fresh Network replayed from the history and compares reaction list, species, sources/sinks, where_species, allowed-filter and index macros (vs a one-shot construction) with a boring reference model. Plus allowed-setter vs constructor on all add sequences <=3 and  on 3 inputs x 8 flag sets x 5 species options.",
+            "BFS over all histories of a 24-operation menu (add x7, add from file, remove by index/list/instance/instances, three allowed lists, two required lists, de-duplicate, append depletion/desorption, reindex) to depth 3 (quick) / 5 (thorough) and of a reduced 10-operation menu to depth 7; every transition calls the real method on a fresh Network replayed from the history and compares reaction list, species, sources/sinks, where_species, allowed-filter and index macros (vs a one-shot construction) with a boring reference model. Plus allowed-setter vs constructor on all add sequences <=3 and the extend command on 3 inputs x 8 flag sets x 5 species options.",
             "Canonical key includes the cached species sets, so merged states have equal futures. Reaction identity classes of the pool are stated in the evidence.", "DESIGN.md §2 C14"),
 }
 
